@@ -23,6 +23,10 @@ GET_SPEC = """requires wf(*self),
             None => !has_path(*self, *path),
         },"""
 
+DEP_SPEC = """requires wf(*self),
+        // true exactly if the path is registered and its node lists the target among its dependencies
+        ensures res == (has_path(*self, *path) && self.graph@[self.index@[*path] as int].depends_on@.contains(*target)),"""
+
 ADD_SPEC = """requires wf(*old(self)), !is_dir(*path), old(self).graph@.len() < usize::MAX,
         ensures wf(*final(self)),
             // registered already: nothing changes; otherwise exactly one node without dependencies is appended
@@ -98,6 +102,19 @@ def build(run):
             f.rename_fn('get_node__vacuity_probe')
             run.extra.setdefault('vacuity_probe_labels', []).append(f.label)
         f.contract(GET_SPEC.split('ensures')[0] + 'ensures false,' if probe else GET_SPEC)
+        unit.add(f)
+    # ---- depends_on (direct dependency query) (+ vacuity probe)
+    for probe in (False, True):
+        f = Snippet(g.fn('depends_on', impl=r'ModuleGraph'), 'vacuity-probe ModuleGraph::depends_on' if probe else 'ModuleGraph::depends_on')
+        mono(f)
+        rules.strip_vis_attrs(f)
+        f.rw('R5', r'\bu64::new\((\w+)\.to_path_buf\(\)\)', r'w_renormalize(\1)', expect=2)
+        f.rw('R4', r'self\s*\.get_node\(&(\w+)\)\s*\.map\(\|(\w+)\| \2\.depends_on\.contains\(&(\w+)\)\)\s*\.unwrap_or\(false\)',
+             r'(match self.get_node(&\1) { Some(\2) => \2.depends_on.contains(&\3), None => false })', expect=1)
+        if probe:
+            f.rename_fn('depends_on__vacuity_probe')
+            run.extra.setdefault('vacuity_probe_labels', []).append(f.label)
+        f.contract(DEP_SPEC.split('ensures')[0] + 'ensures false,' if probe else DEP_SPEC)
         unit.add(f)
     # ---- add_node_if_none (+ vacuity probe)
     for probe in (False, True):
